@@ -1,8 +1,8 @@
 SPECIFICATION Spec
 CONSTANTS
   Alpha = {0, 1}
-  Scope = "quick"
-  MaxInp = 6
+  Scope = "thorough"
+  MaxInp = 8
   MaxWrite = 3
   EmitOps = TRUE
 INVARIANT Inv
